@@ -198,6 +198,7 @@ type RunResult struct {
 	Readers   int
 	Hashes    int
 	TaintSites map[string]int
+	StoreSites map[string]int
 }
 
 // runHarness executes one harness function over all its vCase choices.
@@ -260,6 +261,12 @@ func runHarness(l *Loaded, base *State, e *Engine, fn *ssa.Function, tier int, c
 		res.Taints = append(res.Taints, h.taints...)
 		res.Notes = append(res.Notes, h.notes...)
 		res.Misuse = append(res.Misuse, h.abstractMisuse...)
+		if res.StoreSites == nil {
+			res.StoreSites = map[string]int{}
+		}
+		for k, v := range h.storeSites {
+			res.StoreSites[k] += v
+		}
 		if res.TaintSites == nil {
 			res.TaintSites = map[string]int{}
 		}
